@@ -42,7 +42,7 @@ type c16Case struct {
 func init() {
 	childEntries["c16actor"] = func() int {
 		dir := os.Getenv("VERIF_CHILD_ARG")
-		var db *kv.DB
+		var db, stale *kv.DB
 		in := bufio.NewReader(os.Stdin)
 		for {
 			line, err := in.ReadString('\n')
@@ -72,10 +72,19 @@ func init() {
 			case "close":
 				if db != nil {
 					err := db.Close()
+					stale = db
 					db = nil
 					fmt.Println("res", kvh.ErrName(err))
 				} else {
 					fmt.Println("res not-open")
+				}
+			case "reclose":
+				// a redundant Close of a handle that was closed before (defer + explicit Close)
+				if stale != nil {
+					err := c16Reclose(stale)
+					fmt.Println("res", kvh.ErrName(err))
+				} else {
+					fmt.Println("res no-stale-handle")
 				}
 			case "exit":
 				fmt.Println("res bye")
@@ -83,6 +92,15 @@ func init() {
 			}
 		}
 	}
+}
+
+func c16Reclose(db *kv.DB) (err error) {
+	defer func() {
+		if p := recover(); p != nil {
+			err = fmt.Errorf("panic: %v", p)
+		}
+	}()
+	return db.Close()
 }
 
 func c16Open(o kvh.Opt, dir string) (db *kv.DB, err error) {
@@ -129,6 +147,8 @@ type c16World struct {
 	dir      string
 	children []*c16Child
 	handles  [2]*kv.DB // in-process handles (actors 0 and 1)
+	stale    [2]*kv.DB // handles that were closed before
+	staleKid map[int]bool
 	holder   int       // -1 none
 	damaged  string    // pending damage kind ("" none)
 	rejected int
@@ -241,6 +261,7 @@ func (w *c16World) step(s c16Step) *kvh.Fail {
 		}
 		if a < 2 {
 			err := w.handles[a].Close()
+			w.stale[a] = w.handles[a]
 			w.handles[a] = nil
 			if err != nil {
 				return &kvh.Fail{Sig: "close-error", Msg: err.Error()}
@@ -251,11 +272,100 @@ func (w *c16World) step(s c16Step) *kvh.Fail {
 			if r, err := c.recv(); err != nil || r != "res ok" {
 				return &kvh.Fail{Sig: "close-error", Msg: fmt.Sprintf("child close: %q %v", r, err)}
 			}
+			if w.staleKid == nil {
+				w.staleKid = map[int]bool{}
+			}
+			w.staleKid[a] = true
 		}
 		w.holder = -1
 		w.released = true
 		w.labels["release-by-close"]++
 		return w.lockFree()
+	case "reclose":
+		// a redundant Close on a handle this actor closed earlier; it must not disturb whoever holds the directory now
+		if w.holder == a {
+			return nil
+		}
+		if a < 2 {
+			if w.stale[a] == nil {
+				return nil
+			}
+			if err := c16Reclose(w.stale[a]); err != nil {
+				return &kvh.Fail{Sig: "second-close-fails", Msg: fmt.Sprintf("a second Close of an already closed handle returned %v", err)}
+			}
+		} else {
+			if w.children[a-2] == nil || !w.staleKid[a] {
+				return nil
+			}
+			c := w.children[a-2]
+			_ = c.send("reclose")
+			if r, err := c.recv(); err != nil || r != "res ok" {
+				return &kvh.Fail{Sig: "second-close-fails", Msg: fmt.Sprintf("child: second Close of an already closed handle: %q %v", r, err)}
+			}
+		}
+		w.labels["redundant-close-of-stale-handle"]++
+		if w.holder >= 0 {
+			w.labels["redundant-close-while-another-actor-holds"]++
+		}
+	case "closeburst":
+		// the holder closes while several others try to open: at most one of them may succeed
+		if w.holder < 0 {
+			return nil
+		}
+		h := w.holder
+		var idx []int
+		for i := 0; i < nActors && len(idx) < s.Width; i++ {
+			b := (a + i) % nActors
+			if b == h || (b < 2 && w.handles[b] != nil) || (b >= 2 && w.children[b-2] == nil) {
+				continue
+			}
+			idx = append(idx, b)
+		}
+		if len(idx) < 2 {
+			return nil
+		}
+		type out struct {
+			actor int
+			res   string
+			f     *kvh.Fail
+		}
+		ch := make(chan out, len(idx))
+		closed := make(chan *kvh.Fail, 1)
+		go func() { closed <- w.step(c16Step{C: "close", Actor: h}) }()
+		for _, b := range idx {
+			go func(b int) {
+				r, f := w.open(b, "")
+				ch <- out{b, r, f}
+			}(b)
+		}
+		oks := []int{}
+		for range idx {
+			o := <-ch
+			if o.f != nil {
+				<-closed
+				return o.f
+			}
+			switch o.res {
+			case "ok":
+				oks = append(oks, o.actor)
+			case "ErrDatabaseIsUsing":
+			default:
+				<-closed
+				return &kvh.Fail{Sig: "burst-open-unexpected-error", Msg: fmt.Sprintf("Open racing with a Close returned %s", o.res)}
+			}
+		}
+		if f := <-closed; f != nil && f.Sig != "lock-not-released" {
+			return f
+		}
+		w.labels["close-racing-with-opens"]++
+		if len(oks) > 1 {
+			return &kvh.Fail{Sig: "burst-open-not-exclusive", Msg: fmt.Sprintf("while actor %d closed, %d racing Opens succeeded (%v): two databases are open on one directory", h, len(oks), oks)}
+		}
+		w.holder = -1
+		if len(oks) == 1 {
+			w.holder = oks[0]
+			w.reopened++
+		}
 	case "exit":
 		if a < 2 || w.children[a-2] == nil {
 			return nil
@@ -502,9 +612,14 @@ func TestC16(t *testing.T) {
 				s.C = "open"
 			case x < 66:
 				s.C = "close"
-			case x < 74:
+			case x < 72:
 				s.C = "exit"
-			case x < 88:
+			case x < 79:
+				s.C = "reclose"
+			case x < 84:
+				s.C = "closeburst"
+				s.Width = 2 + kvh.U(t, 3, "cwidth")
+			case x < 92:
 				s.C = "failopen"
 				s.Kind = kvh.Pick(t, []string{"corrupt", "badname", "badio"}, "failkind")
 			default:
